@@ -6,7 +6,7 @@ import FatVerif.Model.FatCodec
 as pure functions on the bytes of one FAT copy, with the scan order and the error behaviour of the Rust code.
 No device faults here: the only errors are `noSpace`, `eof` (read past the end), `writeZero` (write past the end),
 `panic` (u32 overflow with overflow-checks on) and `hang` (fuel exhausted).
-State of /repo: with the repairs of F9 (42d2b2d) and F10 (54cda0a).
+State of /repo: with the repairs of F9 (42d2b2d), F10 (54cda0a) and F21 (8aee7d6).
 -/
 namespace FatVerif.Fat
 
@@ -39,8 +39,9 @@ def findFree32 (f : Array Nat) (s e : Nat) : Except Err Nat :=
   if u32Lim ≤ s * 4 then .error .panic else findFreeLoop32 f (e - s) s
 
 /-- `Fat12::find_free` loop body. State: current `cluster`, the 16-bit `packed` word that holds it, stream position
-    `pos`. The end test happens AFTER the increment (`cluster == end_cluster`), so `start ≥ end` scans on to the
-    end of the stream. Each non-final iteration consumes ≥ 1 byte, so fuel `f.size + 2` is never exhausted. -/
+    `pos`. The end test happens AFTER the increment (`cluster == end_cluster`); `findFree12` enters the loop only
+    with `start < end` (since commit 8aee7d6), so the test is reached. Each non-final iteration consumes ≥ 1 byte, so
+    fuel `f.size + 2` is never exhausted. -/
 def findFreeLoop12 (f : Array Nat) (e : Nat) : Nat → Nat → Nat → Nat → Except Err Nat
   | 0, _, _, _ => .error .hang
   | k + 1, c, packed, pos =>
@@ -54,7 +55,8 @@ def findFreeLoop12 (f : Array Nat) (e : Nat) : Nat → Nat → Nat → Nat → E
        else findFreeLoop12 f e k (c + 1) (packed / 256 + 256 * rd f pos) (pos + 1))
 
 def findFree12 (f : Array Nat) (s e : Nat) : Except Err Nat :=
-  if u32Lim ≤ s + s / 2 then .error .panic
+  if e ≤ s then .error .noSpace              -- F21 repaired (commit 8aee7d6): empty range, nothing is read
+  else if u32Lim ≤ s + s / 2 then .error .panic
   else if f.size < s + s / 2 + 2 then .error .eof
   else findFreeLoop12 f e (f.size + 2) s (rd16 f (s + s / 2)) (s + s / 2 + 2)
 
